@@ -288,6 +288,7 @@ def finish(spec, tier, seed, proof, out, problems, binp, t0, ncases, extra_cov=N
         "cases_first_divergence_outside_projection": out.tainted,
         "cases": ncases, "distribution": {"symbolic_ops_by_kind": out.dist},
         "proof_failures": proof["failures"][:5],
+        "source_tie": proof.get("source_tie", {}),
     }
     if extra_cov:
         cov.update(extra_cov)
